@@ -89,13 +89,36 @@ pub(crate) fn checked_div_rounded(
             // thus avoiding i128 overflow.
             // divident_n_frac_digits > shift
             shift = divident_n_frac_digits - shift;
-            // shift < divident_n_frac_digits => shift < 18 => ten_pow(shift)
-            // is safe
-            Some(i128_div_rounded(
-                divident_coeff / divisor_coeff,
-                ten_pow(shift),
-                None,
-            ))
+            // 0 < shift <= 18
+            if let Some(shifted_divisor) =
+                checked_mul_pow_ten(divisor_coeff, shift)
+            {
+                Some(i128_div_rounded(divident_coeff, shifted_divisor, None))
+            } else if divident_coeff == 0 {
+                Some(0)
+            } else {
+                // |divisor * 10 ^ shift| > i128::MAX >= |divident|, i.e.
+                // 0 < |quotient| < 1. The rounded result depends only on
+                // the sign and on the relation of |quotient| to 1/2:
+                // 2 * |divident| <=> |divisor| * 10 ^ shift, or, with
+                // h = 10 ^ shift / 2, |divident| <=> |divisor| * h.
+                let h = ten_pow(shift).unsigned_abs() >> 1;
+                let a = divident_coeff.unsigned_abs();
+                let b = divisor_coeff.unsigned_abs();
+                let (k, m) = (a / b, a % b);
+                // Surrogate quotient with the same relation to 1/2.
+                let numer: i128 = match k.cmp(&h) {
+                    Ordering::Less => 1,
+                    Ordering::Equal if m == 0 => 2,
+                    _ => 3,
+                };
+                if divident_coeff.is_negative() == divisor_coeff.is_negative()
+                {
+                    Some(i128_div_rounded(numer, 4, None))
+                } else {
+                    Some(i128_div_rounded(-numer, 4, None))
+                }
+            }
         }
     }
 }
